@@ -149,7 +149,7 @@ func New(config ...Config) fiber.Handler {
 			if e.exp != 0 && ts >= e.exp {
 				deleteKey(key)
 				if cfg.MaxBytes > 0 {
-					_, size := heap.remove(e.heapidx)
+					_, size := heap.remove(e.heapidx, key)
 					storedBytes -= size
 				}
 			} else if e.exp != 0 && !hasRequestDirective(c, noCache) {
